@@ -660,13 +660,16 @@ class World:
                 return self._var(it, f, args, kwargs, node)
             if fi.name in ("vcat", "max") and isinstance(f.self_obj, Obj) and f.self_obj.kind == "engine":
                 self.prims.append(("engine." + fi.name, f.self_obj, _where(it, node), None))
-            if any(self.prog.is_subclass(fi.cls, b) for b in PRIM_BASES if b in self.prog.classes):
+            # (a primitive may be inherited from a mixin: what counts is the engine class it is
+            # called through)
+            acc = f.acc_cls if f.acc_cls in self.prog.classes else fi.cls
+            if any(self.prog.is_subclass(acc, b) for b in PRIM_BASES if b in self.prog.classes):
                 env = None
                 try:
                     env = it.bind_args(f, args, kwargs, node)
                 except Raised:
                     raise
-                self.prims.append((f"{fi.cls.split(':')[1]}.{fi.name}", f.via, _where(it, node), env))
+                self.prims.append((f"{acc.split(':')[1]}.{fi.name}", f.via, _where(it, node), env))
         return NotImplemented
 
     # ------------------------------------------------------------- engines
